@@ -57,10 +57,13 @@ class AgentV:
             return Fitness(self.term)
         if name == "index":
             return idx_of(self.term)
+        if name == "accelerator":
+            return None          # contracts are stated for accelerator is None (DESIGN 3.1)
         if name == "clone":
             def clone(ex, st, args, kwargs):
                 index = args[0] if args else kwargs.get("index")
                 c = z3.Const(fresh_name("clone"), Ag)
+                st.assume(c != self.term)            # a clone is a new object
                 st.assume(src(c) == src(self.term))
                 st.assume(flen(c) == flen(self.term))
                 k = z3.Int(fresh_name("k"))
@@ -196,7 +199,8 @@ def new_pop_ok(new, pop, elite, max_id0, elitism, upto):
     n = z3ify(pop.len)
     off = z3.If(z3ify(elitism), 1, 0)
     return z3.And(
-        z3.Implies(z3ify(elitism), z3.And(src(new.arr[0]) == src(elite.term), idx_of(new.arr[0]) == idx_of(elite.term))),
+        z3.Implies(z3ify(elitism), z3.And(src(new.arr[0]) == src(elite.term), idx_of(new.arr[0]) == idx_of(elite.term),
+                                          new.arr[0] != elite.term)),      # a sibling copy, not the returned elite itself
         z3.ForAll([t], z3.Implies(z3.And(off <= t, t < z3ify(upto)),
                                   z3.And(0 <= src(new.arr[t]), src(new.arr[t]) < n, idx_of(new.arr[t]) == max_id0 + (t - off) + 1)),
                   patterns=[new.arr[t]]))
